@@ -15,7 +15,7 @@ from .model_entry import ModelEntry
 def _encode(obj):
     # Encode a model object into a bytes string
     d = obj.to_dict()
-    js = json.dumps(d)
+    js = json.dumps(d, sort_keys=True)
     enc = js.encode('utf-8')
     return enc
 
